@@ -180,6 +180,21 @@ class Sidecar:
         (self.lemmas if is_lemma else self.contracts)[con.key] = con
 
 
+def _decl_names(f):
+    out, todo, seen = set(), [f], set()
+    while todo:
+        x = todo.pop()
+        if x.get_id() in seen:
+            continue
+        seen.add(x.get_id())
+        if z3.is_app(x):
+            out.add(x.decl().name())
+            todo.extend(x.children())
+        elif z3.is_quantifier(x):
+            todo.append(x.body())
+    return out
+
+
 def _bool_consts(f):
     out, todo, seen = [], [f], set()
     while todo:
@@ -608,6 +623,14 @@ class Engine(Core, Expr, Calls, Builtins, Stmts):
                 # the invariants were written for): everything the loop assigns is unconstrained there, so this is not a refutation
                 ob.verdict = 'undecided'
                 ob.reason = f'needs invariant: {"; ".join(needi)}; was: {ob.reason}'
+        if ob.verdict in ('refuted', 'unproved') and z3.is_expr(ob.goal):
+            # text is built by uninterpreted string functions (f-string skeletons, str.format, join ...): two spellings of the same text are
+            # different terms, so a "counter-model" to an equality between texts is not a refutation; the run-time contract decides those
+            names = _decl_names(ob.goal)
+            sb = sorted(n for n in names if n.startswith(('fstr_', 'meth_format', 'meth_join', 'str_concat', 'str_mod')))
+            if sb:
+                ob.verdict = 'undecided'
+                ob.reason = f'text equality over uninterpreted string builders ({", ".join(sb[:3])}): decided by the run-time contract check only; was: {ob.reason}'
         ob.time_s = time.time() - t0
         return ob
 
